@@ -592,5 +592,6 @@ package h2
 //@ func (*Config).Proxy
 //@   serves C10
 //@   requires c != nil && url != nil
+//@   modifies dialN, lastDialed, lastDialErr, tls.Conn.gclosed, rdPos, wrPos
 //@   ensures[dials-once] dialN == old(dialN) + 1
 //@   ensures[upstream-closed-on-return] lastDialErr == nil ==> lastDialed != nil && lastDialed.gclosed
